@@ -30,9 +30,20 @@ def _sentinel(p) -> Optional[str]:
     u = p.unit(A)
 
     def obj_names(unit):
-        return [n.targets[0].id for n in unit.tree.body
-                if isinstance(n, ast.Assign) and isinstance(n.value, ast.Call) and isinstance(n.value.func, ast.Name)
-                and n.value.func.id == 'object' and not n.value.args and isinstance(n.targets[0], ast.Name)]
+        # `X = object()`, or a member of a private Enum class of the module (`_DONE = _Signal.DONE`): either way one object
+        # nobody outside the module can hand in
+        enums = {c.name for c in unit.tree.body if isinstance(c, ast.ClassDef) and c.name.startswith('_')
+                 and any((dotted(b) or '').split('.')[-1] in ('Enum', 'IntEnum', 'Flag') for b in c.bases)}
+        out = []
+        for n in unit.tree.body:
+            if not (isinstance(n, ast.Assign) and len(n.targets) == 1 and isinstance(n.targets[0], ast.Name)):
+                continue
+            v = n.value
+            if isinstance(v, ast.Call) and isinstance(v.func, ast.Name) and v.func.id == 'object' and not v.args:
+                out.append(n.targets[0].id)
+            elif isinstance(v, ast.Attribute) and isinstance(v.value, ast.Name) and v.value.id in enums and v.attr.isupper():
+                out.append(n.targets[0].id)
+        return out
     here = obj_names(u)
     if here:
         return here[0]
@@ -412,28 +423,33 @@ def c17(ctx: Ctx) -> None:
     # the function handed to the executor is expanded in place: a nested closure, a module-level helper given its
     # arguments, a helper that applies an operator.methodcaller - all give the same graph
     g = build(ea, p, expand_deferred=True)
+    # (for the dispatch table a module-level helper that classifies the target loop - `_pick_route(main_loop, loop)` - is part of
+    # the dispatch; the other rules keep the helpers as call sites)
+    g1 = build(ea, p, expand_deferred=True, inline_module_helpers=True)
     awp, loopp = ea.params[0], ea.params[1]
     runner = next((c for c in ea.children if c.kind == 'function'), None)
 
     def ua(n: Node, e: ast.AST) -> str:
         return norm(unalias(g, n, e))
+    def ua1(n: Node, e: ast.AST) -> str:
+        return norm(unalias(g1, n, e))
     # R1
     def atom(n: Node) -> Optional[str]:
         if n.kind != 'branch' or n.meta.get('deferred'):
             return None
-        t = resolve(g, n, n.meta['test'], keep=(loopp, awp))
+        t = resolve(g1, n, n.meta['test'], keep=(loopp, awp))
         if isinstance(t, ast.Compare) and len(t.ops) == 1 and isinstance(t.ops[0], (ast.Is, ast.IsNot)):
             sides = [t.left, t.comparators[0]]
             names = [norm(x) for x in sides]
             if loopp in names and len(set(names)) == 2:
                 other = sides[1 - names.index(loopp)]
-                if isinstance(other, ast.Call) and g.res.path(other.func) == 'asyncio.get_running_loop':
+                if isinstance(other, ast.Call) and g1.res.path(other.func) == 'asyncio.get_running_loop':
                     return 'same' if isinstance(t.ops[0], ast.Is) else '!same'
         if isinstance(t, ast.Call) and isinstance(t.func, ast.Attribute) and isinstance(t.func.value, ast.Name) and t.func.value.id == loopp:
             return {'is_running': 'running', 'is_closed': 'closed'}.get(t.func.attr)
         return None
-    ends = [n for n in g.nodes if n.kind in ('return', 'raise') and not n.meta.get('deferred')]
-    paths = enum_paths(g, ends, sources=[g.entry], edge_ok=_nonexc)
+    ends = [n for n in g1.nodes if n.kind in ('return', 'raise') and not n.meta.get('deferred')]
+    paths = enum_paths(g1, ends, sources=[g1.entry], edge_ok=_nonexc)
     actions_seen = set()
     seen_inst = set()
     for pth in paths:
@@ -450,6 +466,9 @@ def c17(ctx: Ctx) -> None:
         if end.kind == 'raise':
             c = end.ast.exc
             action = 'raise RuntimeError' if isinstance(c, ast.Call) and norm(c.func) == 'RuntimeError' else 'raise other'
+            if action == 'raise other' and not facts and isinstance(c, ast.Call) and norm(c.func) in ('TypeError', 'ValueError') \
+                    and not any(e.src.kind == 'await' for e in pth):
+                continue        # an argument check ahead of the dispatch: nothing has been decided or evaluated yet
         else:
             # what evaluates the awaitable on this path
             aws_ = [e.src for e in pth if e.src.kind == 'await' and not e.src.meta.get('deferred')]
@@ -457,7 +476,7 @@ def c17(ctx: Ctx) -> None:
                     and e.src.ast.func.attr == 'run_until_complete']
             if len(aws_) == 1:
                 aw_n = aws_[0]
-                inner = resolve(g, aw_n, aw_n.ast.value, keep=(awp, loopp))
+                inner = resolve(g1, aw_n, aw_n.ast.value, keep=(awp, loopp))
                 if isinstance(inner, ast.Name) and inner.id == awp:
                     action = 'inline'
                 elif isinstance(inner, ast.Call):
@@ -465,10 +484,10 @@ def c17(ctx: Ctx) -> None:
                     if cn == 'run_aw_threadsafe' and [norm(a_) for a_ in inner.args] == [awp, loopp]:
                         action = 'threadsafe'
                     elif isinstance(inner.func, ast.Attribute) and inner.func.attr == 'run_in_executor' and len(runs) == 1 \
-                            and ua(runs[0], runs[0].ast.func.value) == loopp and [ua(runs[0], a_) for a_ in runs[0].ast.args] == [awp]:
+                            and ua1(runs[0], runs[0].ast.func.value) == loopp and [ua1(runs[0], a_) for a_ in runs[0].ast.args] == [awp]:
                         action = 'run'
                 # the value returned is the value awaited
-                env = sym_env(g, pth)
+                env = sym_env(g1, pth)
                 rv = simplify(subst(end.ast.value, env)) if end.ast.value is not None else None
                 if not (isinstance(rv, ast.Await) and (getattr(rv, 'lineno', None), getattr(rv, 'col_offset', None)) ==
                         (aw_n.ast.lineno, aw_n.ast.col_offset)):
@@ -483,9 +502,9 @@ def c17(ctx: Ctx) -> None:
         if k_ in seen_inst:
             continue
         seen_inst.add(k_)
-        ctx.check('C17-R1', f'{action} under {facts}', g.loc(end), ok, 'matches the dispatch table',
+        ctx.check('C17-R1', f'{action} under {facts}', g1.loc(end), ok, 'matches the dispatch table',
                   f'expected guard {want}: the awaitable would be evaluated on the wrong loop / a running loop would be run again / a closed loop used',
-                  witness=render(g, pth), construct=construct_key('ensure_aw', 'dispatch', action, sorted(facts.items())))
+                  witness=render(g1, pth), construct=construct_key('ensure_aw', 'dispatch', action, sorted(facts.items())))
     missing = {'inline', 'threadsafe', 'raise RuntimeError', 'run'} - actions_seen
     if missing:
         ctx.violation('C17-R1', f'missing dispatch branches: {sorted(missing)}', f'{A}:{ea.lineno}',
